@@ -172,6 +172,13 @@ class Check(object):
             'violations': nviol,
         }
         ev['coverage'].update(self.extra)
+        st = os.environ.get('LCVERIF_SELFTEST_SUMMARY')
+        if st and os.path.exists(st):
+            try:
+                with open(st) as fh:
+                    ev['coverage']['checker_selftest'] = json.load(fh)
+            except Exception:
+                pass
         d = os.environ.get('LCVERIF_EVIDENCE') or os.path.join(VERIF, 'evidence')
         os.makedirs(d, exist_ok=True)
         tmp = os.path.join(d, '.%s.json.%d' % (self.pid, os.getpid()))
